@@ -447,6 +447,20 @@ def opCliMon : Rd String := do
     | some v => pure s!"reject {showReportViolation v}"
     | none => pure "accept"
 
+/-- replay an event log of the library's `run_parallel` through the monitor (no report, keep off) -/
+def opLibMon : Rd String := do
+  let jobs ← nat
+  let mgmt ← str
+  let files ← listOf (do
+    let path ← str
+    let failed ← bool
+    pure ({ path, failed } : CFile))
+  let evs ← listOf readCEv
+  let cfg : MonCfg := { jobs, keep := false, refused := false, mgmtDb := mgmt, files }
+  match accepts cfg evs with
+  | some v => pure s!"reject {showViolation v}"
+  | none => pure "accept"
+
 /-- the serial driver's fold: predicted results and exit status -/
 def opSerial : Rd String := do
   let failFast ← bool
@@ -534,6 +548,8 @@ def dispatchOp (line : String) : String :=
       | "frame" => opFrame.run rest
       | "testdir" => (do let _ ← nat; pure "distinct=1 same=1 exist=1 gone=1 par_ok=1 par_db=1 par_same=1 par_distinct=1 par_gone=1 parent_alive=1" : Rd String).run rest
       | "climon" => opCliMon.run rest
+      | "libmon" => opLibMon.run rest
+      | "libname" => (do let p ← str; let k ← nat; pure (hx (libDbName p k)) : Rd String).run rest
       | "serial" => opSerial.run rest
       | _ => .error s!"unknown op {op}"
     match r with
